@@ -166,3 +166,41 @@ def obligations_no_nested_repeat(pid):
                                        "detail": "rule %r nests an unbounded repetition inside another: exponential backtracking on "
                                                  "a long non-matching input such as an unterminated string" % pat}, kind="static"))
     return obs
+
+
+def obligations_no_adjacent_overlapping_repeats(pid):
+    """C02 (time): no lexer rule has two ADJACENT unbounded repetitions over overlapping character classes -- the shape
+    X*? Y+ z with Y inside X, which makes a backtracking engine quadratic on a long run of Y characters that is not
+    followed by z (e.g. `text:` followed by thousands of line breaks and no terminator)"""
+    obs = []
+    x = z3.String("x")
+
+    def first_item_lang(n):
+        return rx.lang(n.node) if n.kind == "rep" else rx.lang(n)
+
+    def seqs(n):
+        out = []
+        if n.kind == "seq":
+            out.append(n.items)
+        for c in (getattr(n, "items", None) or []) + (getattr(n, "alts", None) or []) + ([n.node] if hasattr(n, "node") else []):
+            out.extend(seqs(c))
+        return out
+
+    for name, pat, root, info in rules():
+        bad = None
+        for items in seqs(root if root.kind == "seq" else rx.N("seq", items=[root])) + ([root.items] if root.kind == "seq" else []):
+            for a, b in zip(items, items[1:]):
+                if a.kind == "rep" and a.hi is None and b.kind == "rep" and b.hi is None:
+                    s = z3.Solver()
+                    s.set("timeout", 10000)
+                    s.add(z3.InRe(x, rx.lang(a.node)), z3.InRe(x, rx.lang(b.node)), z3.Length(x) > 0)
+                    if s.check() != z3.unsat:
+                        bad = (a, b)
+        ok = bad is None
+        obs.append(Ob("%s.L4.no-adjacent-overlapping-unbounded-repetitions.%s" % (pid, name), "discharged" if ok else "refuted",
+                      ["regex-structure+z3"], 0.0, 1,
+                      None if ok else {"model": {"rule": name, "pattern": pat.decode("latin-1")},
+                                       "detail": "rule %r has two adjacent unbounded repetitions that can match the same text: quadratic "
+                                                 "backtracking on a long run of such text that the rest of the rule does not match" % pat},
+                      kind="static"))
+    return obs
